@@ -96,7 +96,27 @@ func HostileConstants() [][]byte {
 
 // GenHostile draws a hostile byte string and a class label.
 func GenHostile(t *rapid.T) ([]byte, string) {
-	kind := rapid.IntRange(0, 15).Draw(t, "hostileKind")
+	kind := rapid.IntRange(0, 16).Draw(t, "hostileKind")
+	if kind == 16 {
+		// a well-formed query (RDLENGTH right) whose OPT carries an option list that lies: an option header that
+		// declares more octets than follow, half an option header, a known option code (ECS, cookie, padding, keepalive)
+		// with too short a body
+		code := rapid.SampledFrom([]uint16{8, 8, 8, 10, 11, 12, 3, 65001}).Draw(t, "optionCode")
+		declared := rapid.SampledFrom([]uint16{1, 2, 3, 4, 5, 8, 11, 255, 0xFFFF}).Draw(t, "declaredLength")
+		present := rapid.SliceOfN(rapid.Byte(), 0, 6).Draw(t, "presentOctets")
+		rd := []byte{byte(code >> 8), byte(code), byte(declared >> 8), byte(declared)}
+		rd = append(rd, present...)
+		switch rapid.IntRange(0, 3).Draw(t, "listShape") {
+		case 1: // a proper option in front
+			rd = append([]byte{0, 10, 0, 8, 1, 2, 3, 4, 5, 6, 7, 8}, rd...)
+		case 2: // only part of an option header
+			rd = rd[:rapid.IntRange(1, 3).Draw(t, "headerOctets")]
+		}
+		m := &Msg{ID: rapid.Uint16().Draw(t, "id"), Bits: BitRD, Q: []Question{{Name: Name{[]byte("optlie"), []byte("test")}, Type: 1, Class: 1}},
+			Ar: []RR{{Type: 41, Class: 1232, RData: []RDPart{{Raw: rd}}}}}
+		w, _ := Encode(m, EncOpts{})
+		return w, "opt-option-lie"
+	}
 	if kind == 15 {
 		// not hostile by its form: a well-formed query whose name is as long as a name can be and consists of octets
 		// that are awkward to print (every path that renders or logs the name sees its longest text form)
